@@ -46,6 +46,7 @@ type VCluster struct {
 	gen           int
 	History       map[string][]ObjState          // "ns/name" -> states
 	NsHist        map[string][]map[string]string // namespace -> label sets over time (nil = deleted)
+	NsHistGen     map[string][]int               // namespace -> value of the generation counter when that entry was written
 	watches       []*filterWatch
 	WatchesOpened int
 	listHook      atomic.Pointer[func(resource, namespace string)]
@@ -73,13 +74,53 @@ func (vc *VCluster) FailList(f func(resource, namespace string) error) {
 	vc.listFault.Store(&f)
 }
 
+// NsLabelsAtGen returns the labels the namespace had when generation gen was written (ok=false: the namespace
+// did not exist then).
+func (vc *VCluster) NsLabelsAtGen(name string, gen int) (map[string]string, bool) {
+	vc.mu.Lock()
+	defer vc.mu.Unlock()
+	var cur map[string]string
+	for i, l := range vc.NsHist[name] {
+		if i < len(vc.NsHistGen[name]) && vc.NsHistGen[name][i] < gen {
+			cur = l
+		}
+	}
+	return cur, cur != nil
+}
+
+// LeftWithNamespace reports whether the state with generation gen (a deletion) is part of its namespace
+// leaving: the next entry of the namespace's history was written at or after gen and everything written in the
+// namespace in between is a deletion too (DeleteNamespace removes the objects, then the namespace).
+func (vc *VCluster) LeftWithNamespace(ns string, gen int) bool {
+	vc.mu.Lock()
+	defer vc.mu.Unlock()
+	for i := range vc.NsHist[ns] {
+		if i >= len(vc.NsHistGen[ns]) || vc.NsHistGen[ns][i] < gen {
+			continue
+		}
+		upTo := vc.NsHistGen[ns][i]
+		for key, h := range vc.History {
+			if !strings.HasPrefix(key, ns+"/") {
+				continue
+			}
+			for _, st := range h {
+				if st.Gen >= gen && st.Gen <= upTo && !st.Deleted {
+					return false
+				}
+			}
+		}
+		return true
+	}
+	return false
+}
+
 // StallWatches makes every open watch silently drop what happens in the cluster (on=true) until it is
 // switched off again; together with ExpireWatches it models a watch outage that ends with 410 Gone:
 // the reflector relists and learns about deletions only from the difference to its store.
 func (vc *VCluster) StallWatches(on bool) { vc.stalled.Store(on) }
 
 func NewVCluster() *VCluster {
-	vc := &VCluster{Cluster: fake.NewFakeCluster(fake.ClusterVersionV127), History: map[string][]ObjState{}, NsHist: map[string][]map[string]string{}}
+	vc := &VCluster{Cluster: fake.NewFakeCluster(fake.ClusterVersionV127), History: map[string][]ObjState{}, NsHist: map[string][]map[string]string{}, NsHistGen: map[string][]int{}}
 	dyn := vc.Client.Dynamic().(*dynfake.FakeDynamicClient)
 	dyn.PrependReactor("list", "*", func(action clienttesting.Action) (bool, runtime.Object, error) {
 		la, ok := action.(clienttesting.ListActionImpl)
@@ -357,6 +398,7 @@ func (vc *VCluster) EnsureNamespace(name string, lbls map[string]string) {
 	}
 	vc.mu.Lock()
 	vc.NsHist[name] = append(vc.NsHist[name], copyLabels(lbls))
+	vc.NsHistGen[name] = append(vc.NsHistGen[name], vc.gen)
 	vc.mu.Unlock()
 }
 
@@ -368,6 +410,7 @@ func (vc *VCluster) RelabelNamespace(name string, lbls map[string]string) {
 	}
 	vc.mu.Lock()
 	vc.NsHist[name] = append(vc.NsHist[name], copyLabels(lbls))
+	vc.NsHistGen[name] = append(vc.NsHistGen[name], vc.gen)
 	vc.mu.Unlock()
 }
 
@@ -381,6 +424,7 @@ func (vc *VCluster) DeleteNamespace(name string) {
 	_ = vc.Client.CoreV1().Namespaces().Delete(context.TODO(), name, metav1.DeleteOptions{})
 	vc.mu.Lock()
 	vc.NsHist[name] = append(vc.NsHist[name], nil)
+	vc.NsHistGen[name] = append(vc.NsHistGen[name], vc.gen)
 	vc.mu.Unlock()
 }
 
